@@ -4,9 +4,10 @@ import PytaskModel.HashValue
 
 * `normpath` mirrors POSIX `os.path.normpath` (`posixpath.py`), including the rule that exactly two
   leading slashes are kept.
-* `collectPath` mirrors what `pytask_collect_node` (`collect.py:388-477`) does to the path of a
-  dependency / product: a plain `Path` value is made absolute and `normpath`-ed; a node *instance*
-  (`PathNode`, `PickleNode`, `DirectoryNode.root_dir`) is joined and `normpath`-ed only when it is relative.
+* `collectPath` mirrors what `pytask_collect_node` (`collect.py`) does to the path of a dependency /
+  product: a plain `Path` value and a node *instance* (`PathNode`, `PickleNode`, `DirectoryNode.root_dir`)
+  are made absolute and `normpath`-ed (absolute node instances since the repair of F17, c8f94b3); which
+  cases are normalised is a translator fact (`Generated.collect…Norm`).
 -/
 namespace Pytask.PathNorm
 open Pytask.Hash (Str)
@@ -58,12 +59,20 @@ is subsumed by the `normpath` that follows). -/
 def joinPath (base p : Str) : Str :=
   if base.getLast? = some '/' then base ++ p else base ++ '/' :: p
 
-/-- Path of the collected node (`collect.py:388-477`).
+/-- Does collection run this declaration through `os.path.normpath`?  Read from the source
+(`harness/extract_hash.py` probes the live `pytask_collect_node`). -/
+def collectNormalises (plain abs : Bool) : Bool :=
+  match plain, abs with
+  | true, false => Generated.collectPlainRelNorm
+  | true, true => Generated.collectPlainAbsNorm
+  | false, false => Generated.collectNodeRelNorm
+  | false, true => Generated.collectNodeAbsNorm
+
+/-- Path of the collected node (`collect.py`, `pytask_collect_node`): a relative path is joined onto the
+task's directory; the result is lexically normalised.
 `plain = true`: the declared value is a `Path`; `false`: a `PathNode`/`PickleNode`/`DirectoryNode` instance. -/
 def collectPath (plain : Bool) (base p : Str) : Str :=
-  if plain then
-    normpath (if isAbs p then p else joinPath base p)
-  else
-    if isAbs p then p else normpath (joinPath base p)
+  let q := if isAbs p then p else joinPath base p
+  if collectNormalises plain (isAbs p) then normpath q else q
 
 end Pytask.PathNorm
